@@ -1714,3 +1714,69 @@ mod fuzz {
         });
     }
 }
+
+#[cfg(tokio_rs_bytes_verif)]
+impl Bytes {
+    /// Verification-only introspection; read at quiescent points only.
+    #[doc(hidden)]
+    pub fn __verif_repr(&self) -> crate::verif::Repr {
+        use crate::verif::{Kind, Repr};
+        let vt = self.vtable as *const Vtable;
+        let data = self.data.load(Ordering::Relaxed);
+        let mut r = Repr {
+            kind: Kind::Static,
+            tagged_vec: false,
+            ctrl: 0,
+            refcnt: None,
+            vec_off: 0,
+            buf_start: 0,
+            buf_cap: 0,
+            orig_cap_repr: 0,
+        };
+        let promotable = if vt == &PROMOTABLE_EVEN_VTABLE as *const Vtable {
+            r.kind = Kind::PromotableEven;
+            true
+        } else if vt == &PROMOTABLE_ODD_VTABLE as *const Vtable {
+            r.kind = Kind::PromotableOdd;
+            true
+        } else {
+            false
+        };
+        if promotable && (data as usize & KIND_MASK) == KIND_VEC {
+            r.tagged_vec = true;
+            let buf = if r.kind == Kind::PromotableEven {
+                data as usize & !KIND_MASK
+            } else {
+                data as usize
+            };
+            r.buf_start = buf;
+            r.buf_cap = (self.ptr as usize - buf) + self.len;
+        } else if promotable || vt == &SHARED_VTABLE as *const Vtable {
+            if !promotable {
+                r.kind = Kind::Shared;
+            }
+            let shared = data as *mut Shared;
+            r.ctrl = shared as usize;
+            unsafe {
+                r.refcnt = Some((*shared).ref_cnt.load(Ordering::Relaxed));
+                r.buf_start = (*shared).buf as usize;
+                r.buf_cap = (*shared).cap;
+            }
+        } else if vt == &OWNED_VTABLE as *const Vtable {
+            r.kind = Kind::Owned;
+            r.ctrl = data as usize;
+            unsafe {
+                r.refcnt = Some((*data.cast::<OwnedLifetime>()).ref_cnt.load(Ordering::Relaxed));
+            }
+        } else if crate::bytes_mut::__verif_is_shared_v(vt) {
+            r.kind = Kind::SharedV;
+            r.ctrl = data as usize;
+            let (cnt, start, cap, ocr) = unsafe { crate::bytes_mut::__verif_shared_fields(data) };
+            r.refcnt = Some(cnt);
+            r.buf_start = start;
+            r.buf_cap = cap;
+            r.orig_cap_repr = ocr;
+        }
+        r
+    }
+}
